@@ -86,8 +86,8 @@ def corruptions(kind, vals):
     fields = V1_FIELDS if kind == 1 else V2_FIELDS
     mk = v1_text if kind == 1 else v2_text
     bad = {
-        "OFXHEADER": ["200" if kind == 1 else "100", "101", "1000", "0", "000", "1" * 5000],
-        "VERSION": (["1020", "10200", "1x2", "abc", "", "9" * 5000] if kind == 1 else ["204", "199", "2000", "221", "abc", "300", "", "000", "9" * 5000]),
+        "OFXHEADER": ["200" if kind == 1 else "100", "101", "1000", "0", "000", "1" * 5000, "1_00" if kind == 1 else "2_00", "_100"],
+        "VERSION": (["1020", "10200", "1x2", "abc", "", "9" * 5000, "1_02", "1_0_2"] if kind == 1 else ["204", "199", "2000", "221", "abc", "300", "", "000", "9" * 5000, "2_03", "2_1_1"]),
         # junk, case variants, and tokens that are valid in *another* field or in a model enumeration
         "SECURITY": ["TYPE2", "none", "Type1", "X", "OFXSGML", "USASCII", "1252", "INFO"],
         "OLDFILEUID": ["u" * 37],
